@@ -250,6 +250,40 @@ bool XmppSocket::sendData(const QByteArray &data)
     return m_socket->write(data) == data.size();
 }
 
+// QDomElement::attribute() finds attributes by their local name. An attribute from a
+// foreign namespace (e.g. x:from) on a top-level element could therefore be mistaken
+// for the element's own 'from', 'to', 'id' or 'type'. Such attributes have no meaning
+// to us: the element is rebuilt without them.
+static void dropForeignAttributes(QDomElement &element)
+{
+    const auto attributes = element.attributes();
+    bool hasForeign = false;
+    for (int i = 0; i < attributes.count(); i++) {
+        const auto attribute = attributes.item(i).toAttr();
+        if (!attribute.prefix().isEmpty() && attribute.prefix() != u"xml") {
+            hasForeign = true;
+        }
+    }
+    if (!hasForeign) {
+        return;
+    }
+
+    auto clean = element.ownerDocument().createElementNS(element.namespaceURI(), element.tagName());
+    for (int i = 0; i < attributes.count(); i++) {
+        const auto attribute = attributes.item(i).toAttr();
+        if (attribute.prefix().isEmpty()) {
+            clean.setAttribute(attribute.name(), attribute.value());
+        } else if (attribute.prefix() == u"xml") {
+            clean.setAttributeNS(attribute.namespaceURI(), attribute.prefix() + u':' + attribute.localName(), attribute.value());
+        }
+    }
+    while (!element.firstChild().isNull()) {
+        clean.appendChild(element.firstChild());
+    }
+    element.parentNode().replaceChild(clean, element);
+    element = clean;
+}
+
 void XmppSocket::processData(const QString &data)
 {
     // As we may only have partial XML content, we need to cache the received
@@ -345,6 +379,7 @@ void XmppSocket::processData(const QString &data)
     // process stanzas
     auto stanza = doc.documentElement().firstChildElement();
     for (; !stanza.isNull(); stanza = stanza.nextSiblingElement()) {
+        dropForeignAttributes(stanza);
         Q_EMIT stanzaReceived(stanza);
     }
 
